@@ -417,6 +417,19 @@ example : (∀ row, SortsRow row (argsortE row)) ∧
       exVals.getD i 0 = exVals.getD j 0 → i = j) i (List.mem_range.mpr hi) j (List.mem_range.mpr hj),
    rfl, ⟨by decide, by decide⟩, rfl⟩
 
+/-- `get_rank` builds a matrix with one column per position up to the size of the biggest group
+(`numpy.max(positions) + 1`).  Any greater width gives the same ranks: the extra columns hold the
+`inf` padding, which a stable sort leaves behind every member.  (So a change of that `+ 1` into a
+greater constant is not observable; a smaller one drops the last member of the biggest group.) -/
+theorem C10_rank_width_irrelevant (extra : Nat) (p : Pop) (crit : List Int) (cond : List Bool)
+    (hc : crit.length = p.ms.length) (hb : cond.length = p.ms.length) (hne : p.ms ≠ [])
+    (hg : ∀ m ∈ p.ms, m.group < p.n) :
+    getRankWide extra p crit cond = getRank p crit cond ∧ getRankWide 0 p crit cond = getRank p crit cond :=
+  ⟨getRankWide_eq_getRank extra p crit cond hc hb hne hg, rfl⟩
+
+example : getRankWide 3 exPop exVals exBools = .ok [0, -1, 1, 0, -1] ∧
+    getRank exPop exVals exBools = .ok [0, -1, 1, 0, -1] := ⟨rfl, rfl⟩
+
 /-! ## chained projections -/
 
 theorem C10_chain_compose {α} (w : World) (e : Nat) (p : Pop) (hp : w.pop e = p) (z : α)
@@ -523,6 +536,266 @@ example :
     chainCall exWorld (0 : Int) .person [.entity 0] false (fun _ => project exPop [10, 20, 30, 40] 0 none)
       = .ok [10, 30, 10, 30, 10] :=
   ⟨rfl, rfl, rfl, rfl, rfl, rfl, rfl⟩
+
+/-! ## `has_role` -/
+
+/-- `has_role(role)`: a person holds a role without sub-roles iff it is the role it has in its
+group, a role with sub-roles iff it holds one of them; one answer per person -/
+theorem C10_has_role_def (p : Pop) (r : Role) :
+    (p.hasRole r).length = p.ms.length ∧
+    ∀ i (hi : i < p.ms.length),
+      (p.hasRole r)[i]? = some (if r.subs = [] then p.ms[i].role == r.id else r.subs.contains p.ms[i].role) := by
+  refine ⟨by simp [Pop.hasRole], fun i hi => ?_⟩
+  simp only [Pop.hasRole, List.getElem?_map, List.getElem?_eq_getElem hi, Option.map_some, Role.holds]
+  cases hs : r.subs with
+  | nil => simp
+  | cons s ss =>
+    simp only [List.isEmpty_cons, Bool.false_eq_true, if_false, reduceCtorEq]
+    congr 1
+    rw [List.contains_eq_any_beq]
+    congr 1
+    funext x
+    exact Bool.beq_comm
+
+example : exPop.hasRole exParent = [true, false, false, false, true] ∧
+    exPop.hasRole exChild = [false, true, false, true, false] := ⟨rfl, rfl⟩
+
+/-! ## the storage order of the persons does not matter
+
+"In any storage order": two populations over the same groups whose (member, value) pairs are the
+same up to order — the persons listed in any other order, their values moved with them — have the
+same sums, counts, any / all, minima and maxima, with or without role. -/
+
+theorem C10_aggregates_order_invariant (p p' : Pop) (a a' : List Int) (b b' : List Bool)
+    (role : Option Role) (hn : p'.n = p.n)
+    (ha : a.length = p.ms.length) (ha' : a'.length = p'.ms.length)
+    (hb : b.length = p.ms.length) (hb' : b'.length = p'.ms.length)
+    (hne : p.ms ≠ []) (hg : ∀ m ∈ p.ms, m.group < p.n)
+    (hpa : (p.ms.zip a).Perm (p'.ms.zip a')) (hpb : (p.ms.zip b).Perm (p'.ms.zip b')) :
+    groupSum p' a' role = groupSum p a role ∧ nbPersons p' role = nbPersons p role ∧
+    groupAny p' b' role = groupAny p b role ∧ groupAll p' b' role = groupAll p b role ∧
+    groupMin p' a' role = groupMin p a role ∧ groupMax p' a' role = groupMax p a role := by
+  have hms := ms_perm_of_zip p p' a a' ha ha' hpa
+  have hg' : ∀ m ∈ p'.ms, m.group < p'.n := fun m hm => hn ▸ hg m (hms.mem_iff.mpr hm)
+  have hne' : p'.ms ≠ [] := fun h => hne (by rw [h] at hms; exact hms.eq_nil)
+  refine ⟨?_, ?_, ?_, ?_, ?_, ?_⟩
+  · rw [groupSum_eq p' a' role ha' hg', groupSum_eq p a role ha hg, hn]
+    congr 1
+    apply List.map_congr_left
+    intro g _
+    exact (perm_sum_int (valuesOf_perm p p' a a' hpa role g)).symm
+  · obtain ⟨r, h1, h2, h3⟩ := C10_count_def p role hg
+    obtain ⟨r', h1', h2', h3'⟩ := C10_count_def p' role hg'
+    rw [h1, h1']
+    congr 1
+    apply List.ext_getElem?
+    intro g
+    by_cases hgn : g < p.n
+    · rw [h3 g hgn, h3' g (hn ▸ hgn), (hms.filter _).length_eq]
+    · rw [List.getElem?_eq_none (by omega), List.getElem?_eq_none (by omega)]
+  · rw [groupAny_eq p' b' role hb' hg', groupAny_eq p b role hb hg, hn]
+    congr 1
+    apply List.map_congr_left
+    intro g _
+    exact (valuesOf_perm p p' b b' hpb role g).any_eq.symm
+  · rw [groupAll_eq p' b' role hb' hne' hg', groupAll_eq p b role hb hne hg, hn]
+    congr 1
+    apply List.map_congr_left
+    intro g _
+    exact (valuesOf_perm p p' b b' hpb role g).all_eq.symm
+  · rw [groupMin_eq p' a' role ha' hne' hg', groupMin_eq p a role ha hne hg, hn]
+    congr 1
+    apply List.map_congr_left
+    intro g _
+    exact (perm_foldl_min (valuesOf_perm p p' a a' hpa role g)).symm
+  · rw [groupMax_eq p' a' role ha' hne' hg', groupMax_eq p a role ha hne hg, hn]
+    congr 1
+    apply List.map_congr_left
+    intro g _
+    exact (perm_foldl_max (valuesOf_perm p p' a a' hpa role g)).symm
+
+/-- the example population with its persons stored in the order 4, 1, 0, 3, 2 -/
+example : (exPop.ms.zip exVals).Perm
+      ((⟨4, [⟨0, 1⟩, ⟨2, 2⟩, ⟨0, 0⟩, ⟨2, 2⟩, ⟨0, 3⟩]⟩ : Pop).ms.zip [-5, -1, 3, 1, 4]) ∧
+    groupMin ⟨4, [⟨0, 1⟩, ⟨2, 2⟩, ⟨0, 0⟩, ⟨2, 2⟩, ⟨0, 3⟩]⟩ [-5, -1, 3, 1, 4] (some exParent)
+      = groupMin exPop exVals (some exParent) := ⟨by decide, rfl⟩
+
+/-! ## roles that partition the members: the role-restricted sums add up to the total -/
+
+/-- When every person holds exactly one of the roles `rs` (the flattened roles of the entity, or
+its top-level roles: `has_role` of a role with sub-roles is the disjunction over them), the sums
+restricted to each role add up, group by group, to the unrestricted sum; the same for counts. -/
+theorem C10_sum_roles_partition (p : Pop) (a : List Int) (rs : List Role)
+    (ha : a.length = p.ms.length) (hg : ∀ m ∈ p.ms, m.group < p.n)
+    (hpart : ∀ m ∈ p.ms, (rs.filter fun r => r.holds m).length = 1) :
+    ∃ tot, groupSum p a none = .ok tot ∧ tot.length = p.n ∧
+      ∀ g, g < p.n →
+        tot[g]? = some (rs.map fun r => (valuesOf p (some r) g a).sum).sum ∧
+        ∀ r ∈ rs, ∃ sr, groupSum p a (some r) = .ok sr ∧ sr[g]? = some (valuesOf p (some r) g a).sum := by
+  obtain ⟨tot, h1, h2, h3⟩ := C10_sum_def p a none ha hg
+  refine ⟨tot, h1, h2, fun g hgn => ⟨?_, fun r _ => ?_⟩⟩
+  · rw [h3 g hgn, sum_roles_partition p a rs g]
+    intro m hm
+    have := hpart m hm
+    have hcount : ∀ L : List Role, (L.map fun r => if r.holds m then (1 : Int) else 0).sum
+        = ((L.filter fun r => r.holds m).length : Int) := by
+      intro L
+      induction L with
+      | nil => rfl
+      | cons r L ih =>
+        simp only [List.map_cons, List.sum_cons, ih, List.filter_cons]
+        cases r.holds m <;> simp <;> omega
+    rw [hcount, this]; rfl
+  · obtain ⟨sr, e1, _, e3⟩ := C10_sum_def p a (some r) ha hg
+    exact ⟨sr, e1, e3 g hgn⟩
+
+/-- the four flattened roles of the example partition its members: per group, the sums over
+first parents, second parents, children and the reference person add up to the total -/
+example : (∀ m ∈ exPop.ms, ([⟨0, [], some 1⟩, ⟨1, [], some 1⟩, exChild, exRef].filter fun r => r.holds m).length = 1) ∧
+    (∀ m ∈ exPop.ms, ([exParent, exChild, exRef].filter fun r => r.holds m).length = 1) ∧
+    groupSum exPop exVals none = .ok [2, 0, 0, 0] ∧ groupSum exPop exVals (some exParent) = .ok [-2, 0, 0, 0] ∧
+    groupSum exPop exVals (some exChild) = .ok [0, 0, 0, 0] ∧ groupSum exPop exVals (some exRef) = .ok [4, 0, 0, 0] :=
+  ⟨by decide, by decide, rfl, rfl, rfl, rfl⟩
+
+/-! ## aggregating a projection gives the group's own value back -/
+
+/-- A group-level array `x` projected onto the persons is constant on every group; aggregating it
+again gives, for every group WITH a member (holding the role), its own value as minimum, maximum
+and value of the n-th member, and `size × value` as sum; a group without such a member gets the
+neutral element / the default. -/
+theorem C10_aggregate_of_projection (p : Pop) (x : List Int) (role : Option Role) (k : Nat) (d : Int)
+    (hx : x.length = p.n) (hne : p.ms ≠ []) (hg : ∀ m ∈ p.ms, m.group < p.n) :
+    ∃ y, project p x 0 none = .ok y ∧ y.length = p.ms.length ∧
+      ∀ g, g < p.n →
+        let size := (p.ms.filter fun m => m.group == g && roleOk role m).length
+        (∃ r, groupSum p y role = .ok r ∧ r[g]? = some ((size : Int) * x.getD g 0)) ∧
+        (∃ r, groupMin p y role = .ok r ∧ r[g]? = some (if 0 < size then .fin (x.getD g 0) else .posInf)) ∧
+        (∃ r, groupMax p y role = .ok r ∧ r[g]? = some (if 0 < size then .fin (x.getD g 0) else .negInf)) ∧
+        (∃ r, valueNth p k y d = .ok r ∧
+          r[g]? = some (if k < (p.ms.filter fun m => m.group == g).length then x.getD g 0 else d)) := by
+  have hy : project p x 0 none = .ok (p.ms.map fun m => x.getD m.group 0) := by
+    rw [project_eq p x 0 none hx hg]
+    simp [roleOk]
+  refine ⟨_, hy, by simp, fun g hgn => ?_⟩
+  have hlen : (p.ms.map fun m => x.getD m.group 0).length = p.ms.length := by simp
+  intro size
+  refine ⟨?_, ?_, ?_, ?_⟩
+  · obtain ⟨r, e1, _, e3⟩ := C10_sum_def p _ role hlen hg
+    exact ⟨r, e1, by rw [e3 g hgn, valuesOf_broadcast, sum_replicate_int]⟩
+  · obtain ⟨r, e1, _, e3⟩ := C10_min_def p _ role hlen hne hg
+    refine ⟨r, e1, ?_⟩
+    rw [(e3 g hgn).1, valuesOf_broadcast]
+    by_cases hs : 0 < size
+    · rw [if_pos hs, foldl_min_replicate _ _ hs]
+    · have : size = 0 := by omega
+      rw [if_neg hs]
+      show some ((List.map EInt.fin (List.replicate size _)).foldl EInt.min .posInf) = _
+      rw [this]; rfl
+  · obtain ⟨r, e1, _, e3⟩ := C10_max_def p _ role hlen hne hg
+    refine ⟨r, e1, ?_⟩
+    rw [(e3 g hgn).1, valuesOf_broadcast]
+    by_cases hs : 0 < size
+    · rw [if_pos hs, foldl_max_replicate _ _ hs]
+    · have : size = 0 := by omega
+      rw [if_neg hs]
+      show some ((List.map EInt.fin (List.replicate size _)).foldl EInt.max .negInf) = _
+      rw [this]; rfl
+  · obtain ⟨⟨r, e1, _, e3⟩, _⟩ := C10_nth_def p k _ d hlen hne hg
+    refine ⟨r, e1, ?_⟩
+    rw [e3 g hgn, valuesOf_broadcast]
+    simp only [roleOk, Bool.and_true]
+    by_cases hk : k < (p.ms.filter fun m => m.group == g).length
+    · rw [if_pos hk, List.getElem?_replicate, if_pos hk]; rfl
+    · rw [if_neg hk, List.getElem?_replicate, if_neg hk]; rfl
+
+example : project exPop [10, 20, 30, 40] 0 none = .ok [10, 30, 10, 30, 10] ∧
+    groupSum exPop [10, 30, 10, 30, 10] none = .ok [30, 0, 60, 0] ∧
+    groupMin exPop [10, 30, 10, 30, 10] (some exChild) = .ok [.posInf, .posInf, .fin 30, .posInf] ∧
+    valueNth exPop 2 [10, 30, 10, 30, 10] (-7) = .ok [10, -7, -7, -7] := ⟨rfl, rfl, rfl, rfl⟩
+
+/-! ## `reduce` with any reducer -/
+
+/-- `reduce(array, reducer, neutral_element, role)`: for every reducer for which the given element
+is neutral on the right, the result is the left fold of the reducer over the values of the members
+of the group (holding the role), in storage order, started from the neutral element — `all`, `min`
+and `max` are the instances `logical_and / True`, `minimum / +inf`, `maximum / -inf`. -/
+theorem C10_reduce_def {α} (p : Pop) (a : List α) (op : α → α → α) (e : α) (role : Option Role)
+    (hlen : a.length = p.ms.length) (hne : p.ms ≠ []) (hg : ∀ m ∈ p.ms, m.group < p.n)
+    (hid : ∀ x, op x e = x) :
+    (∃ r, reduce p a op e role = .ok r ∧ r.length = p.n ∧
+      ∀ g, g < p.n → r[g]? = some ((valuesOf p role g a).foldl op e)) ∧
+    (∀ b : List Bool, groupAll p b role = reduce p b (fun x y => x && y) true role) ∧
+    (∀ v : List Int, groupMin p v role = reduce p (v.map .fin) EInt.min .posInf role ∧
+      groupMax p v role = reduce p (v.map .fin) EInt.max .negInf role) := by
+  have h := range_map_spec p.n (fun g => (valuesOf p role g a).foldl op e)
+  exact ⟨⟨_, reduce_eq p a op e role hlen hne hg hid, h.1, h.2⟩, fun _ => rfl, fun _ => ⟨rfl, rfl⟩⟩
+
+/-- the sum as a reduction (`numpy.add`, 0) and "the greatest value, at least 0" (`numpy.maximum`, 0
+is NOT neutral for negative values: outside the hypothesis) -/
+example : reduce exPop exVals (· + ·) 0 none = .ok [2, 0, 0, 0] ∧ (∀ x : Int, x + 0 = x) :=
+  ⟨rfl, Int.add_zero⟩
+
+/-! ## `population.members` in attribute chains -/
+
+/-- `group.members` (and `person.group.members`, through a projector) is the persons population
+itself: whatever projectors came before are dropped, the chain goes on from the persons; on the
+persons population `members` is no attribute. -/
+theorem C10_members_shortcut (w : World) (acc : List Proj) (e : Nat) (ss : List Shortcut) :
+    resolveAcc w acc (.group e) (.members :: ss) = resolveChain w .person ss ∧
+    (∃ m, resolveAcc w acc .person (.members :: ss) = .error m) ∧
+    (∀ start pre, resolveChain w start pre = .ok (acc, .group e) →
+      resolveChain w start (pre ++ .members :: ss) = resolveChain w .person ss) := by
+  refine ⟨rfl, ⟨_, rfl⟩, ?_⟩
+  intro start pre h
+  have key : ∀ (pre : List Shortcut) (acc0 : List Proj) (lvl : Level),
+      resolveAcc w acc0 lvl pre = .ok (acc, .group e) →
+      resolveAcc w acc0 lvl (pre ++ .members :: ss) = resolveAcc w [] .person ss := by
+    intro pre
+    induction pre with
+    | nil =>
+      intro acc0 lvl h
+      simp only [resolveAcc, Except.ok.injEq, Prod.mk.injEq] at h
+      obtain ⟨_, rfl⟩ := h
+      rfl
+    | cons s pre ih =>
+      intro acc0 lvl h
+      cases s with
+      | members =>
+        cases lvl with
+        | person => simp [resolveAcc] at h
+        | group e' =>
+          simp only [List.cons_append, resolveAcc] at h ⊢
+          exact ih _ _ h
+      | entity e' =>
+        simp only [List.cons_append, resolveAcc] at h ⊢
+        cases hr : resolve w lvl (.entity e') with
+        | none => rw [hr] at h; cases h
+        | some q => rw [hr] at h; exact ih _ _ h
+      | firstPerson =>
+        simp only [List.cons_append, resolveAcc] at h ⊢
+        cases hr : resolve w lvl .firstPerson with
+        | none => rw [hr] at h; cases h
+        | some q => rw [hr] at h; exact ih _ _ h
+      | role r =>
+        simp only [List.cons_append, resolveAcc] at h ⊢
+        cases hr : resolve w lvl (.role r) with
+        | none => rw [hr] at h; cases h
+        | some q => rw [hr] at h; exact ih _ _ h
+      | other =>
+        simp only [List.cons_append, resolveAcc] at h ⊢
+        cases hr : resolve w lvl .other with
+        | none => rw [hr] at h; cases h
+        | some q => rw [hr] at h; exact ih _ _ h
+  exact key pre [] start h
+
+example :
+    -- person.household.members.household.sum(a) is person.household.sum(a)
+    chainCall (World.single exPop) 0 .person [.entity 0, .members, .entity 0] true (fun _ => groupSum exPop exVals none)
+      = chainCall (World.single exPop) 0 .person [.entity 0] true (fun _ => groupSum exPop exVals none) ∧
+    -- household.first_person.household.members.has_role(child): one answer per person, untransformed
+    chainCall (World.single exPop) false (.group 0) [.firstPerson, .entity 0, .members] true
+      (fun _ => .ok (exPop.hasRole exChild)) = .ok [false, true, false, true, false] ∧
+    (∃ m, resolveChain (World.single exPop) .person [.members] = .error m) := ⟨rfl, rfl, ⟨_, rfl⟩⟩
 
 /-! ## refusals: wrong array sizes, nobody in the simulation -/
 
